@@ -302,7 +302,9 @@ def cases(draw, v3_weight=1):
     if op in ("get", "getnext"):
         case["oids"] = [draw(oid)]
     elif op in ("multiget", "multigetnext"):
-        case["oids"] = draw(st.lists(oid, min_size=1, max_size=12))
+        # mostly a handful, sometimes hundreds of OIDs (with repetitions) in one request
+        case["oids"] = draw(st.lists(oid, min_size=1, max_size=12)) if draw(st.integers(0, 9)) else \
+            draw(st.lists(oid, min_size=130, max_size=300))
     elif op in ("set", "multiset"):
         n = 1 if op == "set" else draw(st.integers(1, min(6, len(set(pool)))))
         targets = draw(st.lists(oid, min_size=n, max_size=n, unique_by=tuple))
@@ -311,7 +313,7 @@ def cases(draw, v3_weight=1):
     else:
         case["scalars"] = draw(st.lists(oid, min_size=0, max_size=3))
         case["repeaters"] = draw(st.lists(oid, min_size=0 if case["scalars"] else 1, max_size=3))
-        case["maxrep"] = draw(st.integers(0, 6))
+        case["maxrep"] = draw(st.one_of(st.integers(0, 6), st.integers(0, 6), st.sampled_from([25, 127, 128, 1000])))
     return case
 
 
